@@ -1,17 +1,61 @@
-"""Stream `determinism` (C07): the command line on a pair of JSON documents; the worker is started several times
+"""Stream `determinism` (C07): the command line on a pair of documents; the worker is started several times
 with different PYTHONHASHSEED values (see `extra` in harness/props/c07.py) and each case is also run twice in the
-same process; stdout bytes and exit status must all agree.  Also: diff() must not alter the trees it is given."""
-import json
+same process; stdout bytes and exit status must all agree.  Also: diff() must not alter the trees it is given.
+
+Two kinds of cases:
+  * generated JSON documents (`f`, `t`) with the matching / layout / mode options;
+  * FILE cases (`kind`, `docset`): the matrix stream's documents (harness/streams/matrix.py `content`) of every input type - XML, HTML,
+    CSV, YAML, plist (XML and binary), pickle (plain data and pickled objects), JSON, JSON5 - under `-e`, `-d`, every `-f` output
+    format, `--html`, `--color`, `-j`, `-k`, `--dict-strategy match`, `--match-if` / `--match-unless`, so that the hash-seed /
+    order-of-invocation / repeated-call comparisons pass through every loader, every edit class and every formatter.  A run that ends in
+    an internal error (the recorded C13 findings D11 / D18) is compared like any other outcome (same exception class, same partial
+    output) but is not itself reported here - that is C13's business."""
+import base64, json
 
 NAME = "determinism"
 
 OPTS = [[], ["-k"], ["--dict-strategy", "match"], ["-l"], ["-ll"], ["-j"], ["-k", "-j"], ["-e"], ["-d"], ["--color"], ["-k", "--color"]]
 
 
+MATCH_OPTS = [["--match-if", "len(str(from)) >= len(str(to))"], ["--match-unless", "str(from) < str(to)"],
+              ["--match-if", "from == to", "-d"], ["--match-unless", "len(str(to)) > 12", "-e"]]
+FILE_DOCSETS = {"json": [0, 1, 3, 4], "json5": [1, 3], "yaml": [0, 1, 3, 4], "csv": [0, 1, 3, 4], "xml": [0, 1, 3, 4, 5], "html": [0, 3, 4, 5],
+                "plist": [0, 1, 3, 4], "pickle": [0, 1, 3, 7, 8]}
+FILE_DOCSETS_QUICK = {"json": [1, 3], "json5": [3], "yaml": [1, 3], "csv": [1, 3], "xml": [0, 3, 4], "html": [4, 5], "plist": [1, 3], "pickle": [1, 7, 8]}
+
+
+# shrunk inputs of genuine findings (kept so that they stay visible whatever the seed draws)
+FORCED_FILE = [
+    # -e prints repr(edit); a Replace of the plist ROOT (forced here by --match-unless) prints PLISTNode's default repr, which contains
+    # the object's memory address: the output differs between two calls in one process, between processes and between hash seeds
+    {"kind": "plist", "docset": 3, "argv": ["--match-unless", "len(str(to)) > 12", "-e"]},
+]
+
+
+def file_cases(rng, tier):
+    """every input type x its document sets x (-e, -d, and drawn output formats / printers / matching options)"""
+    from harness.streams import matrix
+    fmts = [f for f in matrix.FORMATS if f]
+    out = []
+    docsets = FILE_DOCSETS_QUICK if tier == "quick" else FILE_DOCSETS
+    out += [dict(c) for c in FORCED_FILE]
+    for kind in matrix.INPUTS:
+        for ds in docsets[kind]:
+            argvs = [["-e"], ["-d"]] if tier == "quick" else [[], ["-e"], ["-d"]]
+            pool = [["--html"], ["--color"], ["-j"], ["-k"], ["--dict-strategy", "match"], ["-d", "--color"], ["-e", "-k"], ["--html", "-d"]] + MATCH_OPTS
+            pool += [["-f", f] for f in fmts] + [["-d", "-f", f] for f in fmts]
+            slow = kind == "pickle" and ds in (7, 8)          # pickled objects: 1 - 2 s per case
+            argvs += rng.sample(pool, (0 if slow else 2) if tier == "quick" else 12)
+            for a in argvs:
+                out.append({"kind": kind, "docset": ds, "argv": a})
+        out.append({"kind": kind, "docset": docsets[kind][-1], "argv": rng.choice([[], ["--html"], ["-j"]]), "same": True})
+    return out
+
+
 def gen(rng, tier):
     from harness.streams.script import gen_doc, mutate, FORCED
     n = 60 if tier == "quick" else 600
-    cases = []
+    cases = file_cases(rng, tier)
     for f, t in FORCED[:12]:
         cases.append({"f": f, "t": t, "argv": rng.choice(OPTS)})
     # documents rich in mappings with many keys missing on either side (set/dict iteration order matters there)
@@ -43,6 +87,8 @@ def gen(rng, tier):
         a = gen_doc(rng, maxd=4)
         b = mutate(rng, a) if rng.random() < 0.8 else gen_doc(rng)
         cases.append({"f": a, "t": b, "argv": rng.choice(OPTS)})
+    # the engine cuts the list into contiguous chunks, one worker each: mix slow (pickled objects, deep nesting) and fast cases
+    rng.shuffle(cases)
     return cases
 
 
@@ -62,11 +108,54 @@ def _snapshot(node, depth=0, ann=False):
     return d
 
 
+def _impl_file(case):
+    import hashlib, os, shutil, tempfile
+    import graphtage
+    from harness import clirun
+    from harness.streams import matrix
+    kind, ds = case["kind"], case["docset"]
+    ext = {"pickle": "pkl"}.get(kind, kind)
+    a = matrix.content(kind, 1, ds)
+    b = a if case.get("same") else matrix.content(kind, 2, ds)
+    files = {"a." + ext: {"b64": base64.b64encode(a).decode()}, "b." + ext: {"b64": base64.b64encode(b).decode()}}
+    argv = ["--from-" + kind, "--to-" + kind, "--no-status"] + case["argv"] + ["a." + ext, "b." + ext]
+    r1, r2 = clirun.run_case(files, [{"argv": argv}, {"argv": argv}])
+    mutated = None
+    # purity on the trees of this input type: diff() / get_all_edits() must not alter them
+    d = tempfile.mkdtemp(prefix="gtverif_")
+    try:
+        clirun.write_files(files, d)
+        o = graphtage.BuildOptions(allow_key_edits="-k" not in case["argv"])
+        ft = graphtage.FILETYPES_BY_TYPENAME[kind]
+        A, B = ft.build_tree(os.path.join(d, "a." + ext), o), ft.build_tree(os.path.join(d, "b." + ext), o)
+        sa, sb = _snapshot(A), _snapshot(B)
+        dd = A.diff(B)
+        list(A.get_all_edits(B))
+        if _snapshot(A) != sa:
+            mutated = "from"
+        elif _snapshot(B) != sb:
+            mutated = "to"
+        else:
+            sd = _snapshot(dd, ann=True)
+            dd.diff(A)
+            if _snapshot(dd, ann=True) != sd:
+                mutated = "diff-result"
+    except Exception as e:
+        mutated = None if r1["exc"] else "EXC:" + type(e).__name__     # a document the command itself fails on: C13's business
+    finally:
+        shutil.rmtree(d, ignore_errors=True)
+    return {"rc": r1["rc"], "exc": r1["exc"], "sha": hashlib.sha256(r1["out"].encode("utf-8", "surrogatepass")).hexdigest(),
+            "len": len(r1["out"]), "head": r1["out"][:300], "twice_same": (r1["rc"], r1["out"], r1["exc"]) == (r2["rc"], r2["out"], r2["exc"]),
+            "mutated": mutated}
+
+
 def impl(case):
     import hashlib
     import graphtage
     from graphtage import json as gj
     from harness import clirun
+    if "kind" in case:
+        return _impl_file(case)
     ext = case.get("ext", "json")
     files = {"a." + ext: {"text": json.dumps(case["f"])}, "b." + ext: {"text": json.dumps(case["t"])}}
     argv = ["--no-status"] + case["argv"] + ["a." + ext, "b." + ext]
@@ -101,22 +190,40 @@ def impl(case):
             "mutated": mutated}
 
 
+def key_suffix(case, obs):
+    """Makes the keys of the comparisons specific: input type and mode for file cases; and the one recognisable cause - an object's
+    default repr (with its memory address) written to the output - gets a key of its own."""
+    import re
+    head = obs.get("head", "") if isinstance(obs, dict) else ""
+    if re.search(r" object at 0x[0-9a-fA-F]+>", head):
+        return ":address-in-output:" + case.get("kind", "json")
+    if "kind" in case:
+        mode = "edits" if "-e" in case["argv"] else "digest" if "-d" in case["argv"] else "full"
+        return ":" + case["kind"] + ":" + mode
+    return ""
+
+
 def monitor(case, obs):
     if not isinstance(obs, dict) or obs.get("error"):
         return [{"prop": "C07", "key": "harness-error:" + str(obs.get("exc") if isinstance(obs, dict) else ""), "what": repr(obs)[:300]}]
     hits = []
-    if obs["exc"] and "ext" not in case:
+    if obs["exc"] and "ext" not in case and "kind" not in case:
         # (deep-nesting cases may legitimately end in the interpreter's recursion limit: what matters for C07 is
         # that the outcome is the same whatever ran before, which the seed / order comparisons check)
         hits.append({"prop": "C07", "key": "internal-error:" + obs["exc"], "what": f"command raised {obs['exc']}"})
     if not obs["twice_same"]:
-        hits.append({"prop": "C07", "key": "repeat-differs", "what": "two invocations in one process produced different output or exit status"})
+        hits.append({"prop": "C07", "key": "repeat-differs" + key_suffix(case, obs), "what": "two invocations in one process produced different output or exit status; first output starts " + repr(obs.get("head", "")[:160])})
     if obs["mutated"]:
         hits.append({"prop": "C07", "key": "inputs-mutated:" + str(obs["mutated"]), "what": f"diff()/get_all_edits() altered the {obs['mutated']} tree it was given"})
     return hits
 
 
 def classify(case, obs):
+    if "kind" in case:
+        a = case["argv"]
+        fmt = a[a.index("-f") + 1] if "-f" in a else case["kind"]
+        rest = " ".join(x for x in a if x.startswith("-") and x != "-f")
+        return f"file:{case['kind']}->{fmt}:docset{case['docset']}:opts={rest}" + (":crashes(C13)" if isinstance(obs, dict) and obs.get("exc") else "")
     return "opts=" + " ".join(case["argv"])
 
 
